@@ -9,6 +9,7 @@ import (
 	"net/http"
 	"slices"
 	"strings"
+	"sync"
 
 	"github.com/issue9/mux/v9/types"
 )
@@ -32,6 +33,9 @@ var (
 	methodIndexMap map[string]int // 各个请求方法对应的数值
 
 	methodIndexes = map[int]methodIndexEntity{}
+
+	// methodIndexes 由所有的 Tree 实例共享，且是按需生成的，所以读写都需要加锁。
+	methodIndexesMux sync.RWMutex
 )
 
 const methodNotAllowed = "" // 表示 405 的处理方法在各个节点上的名称。
@@ -49,6 +53,9 @@ type methodIndexEntity struct {
 }
 
 func buildMethodIndexes(index int) {
+	methodIndexesMux.Lock()
+	defer methodIndexesMux.Unlock()
+
 	if _, found := methodIndexes[index]; found {
 		return
 	}
@@ -78,10 +85,16 @@ func (n *node[T]) buildMethods() {
 	buildMethodIndexes(n.methodIndex)
 }
 
-func (n *node[T]) AllowHeader() string { return methodIndexes[n.methodIndex].options }
+func (n *node[T]) AllowHeader() string { return getMethodIndexEntity(n.methodIndex).options }
 
 // Methods 当前节点支持的请求方法
-func (n *node[T]) Methods() []string { return methodIndexes[n.methodIndex].methods }
+func (n *node[T]) Methods() []string { return getMethodIndexEntity(n.methodIndex).methods }
+
+func getMethodIndexEntity(index int) methodIndexEntity {
+	methodIndexesMux.RLock()
+	defer methodIndexesMux.RUnlock()
+	return methodIndexes[index]
+}
 
 // 添加一个处理函数
 func (n *node[T]) addMethods(h T, pattern string, ms []types.Middleware[T], methods ...string) error {
